@@ -5,9 +5,10 @@
 -/
 import ZapModel.Writer
 import ZapProofs.CodecLemmas
+import ZapProofs.WriterLemmasUv
 
 namespace Zap.Writer.Stored
-open Zap Zap.Codec Zap.Writer
+open Zap Zap.Codec Zap.Writer Zap.Writer.Uv
 
 theorem uvAllL_putUvarints (xs : List Nat) :
     ∀ fuel, xs.length ≤ fuel → uvAllL fuel (putUvarints xs) = some xs := by
@@ -67,13 +68,16 @@ theorem storedGroups_metaVals (vs : List StoredVal) :
 
 /-- The record, as the reader sees it after the two length varints. -/
 theorem decodeStoredDocL_roundtrip (compress : Bytes → Bytes)
-    (hsn : ∀ x, snappyDecode (compress x) = some x) (sd : StoredDoc) (pre post : Bytes) :
+    (hsn : ∀ x, snappyDecode (compress x) = some x) (sd : StoredDoc)
+    (hsz : (encodeStoredDoc compress sd).length < 2 ^ 64) (pre post : Bytes) :
     decodeStoredDocL (pre ++ encodeStoredDoc compress sd ++ post) pre.length = some sd := by
+  unfold encodeStoredDoc at hsz
+  simp only [List.length_append] at hsz
   unfold decodeStoredDocL encodeStoredDoc
   simp only [List.append_assoc]
-  rw [drop_length_append, uvarint_putUvarint]
+  rw [drop_length_append, uv64_putUvarint _ (by omega)]
   simp only
-  rw [uvarint_putUvarint]
+  rw [uv64_putUvarint _ (by omega)]
   simp only
   rw [if_neg (by simp only [List.length_append]; omega)]
   rw [List.take_left]
